@@ -805,6 +805,19 @@ def canon_block(stmts, tail=False):
                 for h in s.handlers:
                     h.body = canon_block(h.body)
         out.append(s)
+    # C13: two consecutive `if n:` on the same local NAME that the first one's branches do not assign are one `if`
+    fused = []
+    for s in out:
+        p_ = fused[-1] if fused else None
+        if (p_ is not None and isinstance(s, ast.If) and isinstance(p_, ast.If) and isinstance(s.test, ast.Name) and isinstance(p_.test, ast.Name)
+                and s.test.id == p_.test.id and s.test.id not in stored_names(p_.body + p_.orelse)
+                and not _always_leaves(p_.body) and not _always_leaves(p_.orelse)
+                and not any(isinstance(n, (ast.Global, ast.Nonlocal)) for b in p_.body + p_.orelse for n in ast.walk(b))):
+            fused[-1] = ast.If(test=p_.test, body=[x for x in p_.body + s.body if not isinstance(x, ast.Pass)] or [ast.Pass()],
+                               orelse=[x for x in p_.orelse + s.orelse if not isinstance(x, ast.Pass)])
+        else:
+            fused.append(s)
+    out = fused
     # C2: merge consecutive terminal guards with identical bodies
     merged = []
     for s in out:
@@ -884,7 +897,10 @@ def _neg_weight(e):
 
 
 def _orient(s):
-    """C9: `if not X: A else: B` -> `if X: B else: A` (also `not in` / `is not`); ties are left alone"""
+    """C9: `if not X: A else: B` -> `if X: B else: A` (also `not in` / `is not`); ties are left alone;
+    `if X: pass else: B` -> `if not X: B`"""
+    if isinstance(s, ast.If) and s.orelse and all(isinstance(x, ast.Pass) for x in s.body):
+        return ast.If(test=_ExprCanon().visit(_negate(s.test)), body=s.orelse, orelse=[])
     if isinstance(s, ast.If) and s.orelse and s.body:
         n = _negate(s.test)
         if _neg_weight(n) < _neg_weight(s.test):
@@ -1011,12 +1027,227 @@ def canon_function_body(body):
     return canon_block(copy.deepcopy(body), True)
 
 
+def _unroll_enumerate(f):
+    """C10: `for i, x in enumerate(E): BODY`  ->  `i = 0; for x in E: BODY; i = i + 1`  when BODY neither assigns i nor contains
+    `continue`/`break`-dependent uses of i, and i is not read outside the loop (after an empty E the two forms differ only in i)"""
+    if any(isinstance(n, ast.Name) and n.id == "enumerate" and isinstance(n.ctx, ast.Store) for n in ast.walk(f)):
+        return
+
+    def loads_outside(name, node):
+        inside = {id(n) for n in ast.walk(node)}
+        return any(isinstance(n, ast.Name) and n.id == name and isinstance(n.ctx, ast.Load) and id(n) not in inside for n in ast.walk(f))
+
+    def walk(stmts):
+        out = []
+        for st in stmts:
+            for field in ("body", "orelse", "finalbody"):
+                sub = getattr(st, field, None)
+                if isinstance(sub, list) and sub and isinstance(sub[0], ast.stmt) and not isinstance(st, (ast.FunctionDef, ast.ClassDef, ast.AsyncFunctionDef)):
+                    setattr(st, field, walk(sub))
+            if isinstance(st, ast.Try):
+                for h in st.handlers:
+                    h.body = walk(h.body)
+            if (isinstance(st, ast.For) and not st.orelse and isinstance(st.iter, ast.Call) and isinstance(st.iter.func, ast.Name)
+                    and st.iter.func.id == "enumerate" and len(st.iter.args) == 1 and not st.iter.keywords
+                    and isinstance(st.target, ast.Tuple) and len(st.target.elts) == 2 and isinstance(st.target.elts[0], ast.Name)):
+                i = st.target.elts[0].id
+                body_nodes = [n for b in st.body for n in ast.walk(b)]
+                if (not any(isinstance(n, ast.Continue) for n in body_nodes)
+                        and not any(isinstance(n, ast.Name) and n.id == i and isinstance(n.ctx, (ast.Store, ast.Del)) for n in body_nodes)
+                        and i not in names_in([st.target.elts[1]]) and i not in names_in([st.iter])
+                        and not loads_outside(i, st)):
+                    out.append(ast.Assign(targets=[ast.Name(id=i, ctx=ast.Store())], value=ast.Constant(value=0)))
+                    inc = ast.Assign(targets=[ast.Name(id=i, ctx=ast.Store())],
+                                     value=ast.BinOp(left=ast.Name(id=i, ctx=ast.Load()), op=ast.Add(), right=ast.Constant(value=1)))
+                    out.append(ast.For(target=st.target.elts[1], iter=st.iter.args[0], body=st.body + [inc], orelse=[]))
+                    continue
+            out.append(st)
+        return out
+    f.body = walk(f.body)
+
+
+def _fold_int_arith(f):
+    """C15: `+`, `-`, `*` of two int literals is the literal result"""
+    class F(ast.NodeTransformer):
+        def visit_BinOp(self, n):
+            self.generic_visit(n)
+            a, b = n.left, n.right
+            if isinstance(a, ast.Constant) and isinstance(b, ast.Constant) and type(a.value) is int and type(b.value) is int \
+                    and isinstance(n.op, (ast.Add, ast.Sub, ast.Mult)):
+                v = a.value + b.value if isinstance(n.op, ast.Add) else a.value - b.value if isinstance(n.op, ast.Sub) else a.value * b.value
+                if v >= 0:
+                    return ast.copy_location(ast.Constant(value=v), n)
+            return n
+    F().visit(f)
+
+
+def _split_tuple_assign(f):
+    """C14: `a, b = e1, e2` -> `a = e1; b = e2` when every target but the last is a local NAME that occurs in no later right-hand side
+    and in no nested scope: binding a local cannot influence the evaluation of an expression that does not mention it"""
+    nested_names = set()
+    for n in ast.walk(f):
+        if n is not f and isinstance(n, (ast.FunctionDef, ast.Lambda, ast.ClassDef, ast.AsyncFunctionDef)):
+            nested_names |= {x.id for x in ast.walk(n) if isinstance(x, ast.Name)}
+    glob = set()
+    for n in ast.walk(f):
+        if isinstance(n, (ast.Global, ast.Nonlocal)):
+            glob |= set(n.names)
+
+    def walk(stmts):
+        out = []
+        for st in stmts:
+            for field in ("body", "orelse", "finalbody"):
+                sub = getattr(st, field, None)
+                if isinstance(sub, list) and sub and isinstance(sub[0], ast.stmt) and not isinstance(st, (ast.FunctionDef, ast.ClassDef, ast.AsyncFunctionDef)):
+                    setattr(st, field, walk(sub))
+            if isinstance(st, ast.Try):
+                for h in st.handlers:
+                    h.body = walk(h.body)
+            if (isinstance(st, ast.Assign) and len(st.targets) == 1 and isinstance(st.targets[0], ast.Tuple) and isinstance(st.value, ast.Tuple)
+                    and len(st.targets[0].elts) == len(st.value.elts) >= 2
+                    and not any(isinstance(e, ast.Starred) for e in st.targets[0].elts + st.value.elts)):
+                ts, vs = st.targets[0].elts, st.value.elts
+                ok = True
+                for k, t in enumerate(ts[:-1]):
+                    if not (isinstance(t, ast.Name) and t.id not in nested_names and t.id not in glob
+                            and all(t.id not in names_in([v]) for v in vs[k + 1:])):
+                        ok = False
+                if ok:
+                    for t, v in zip(ts, vs):
+                        out.append(ast.copy_location(ast.Assign(targets=[t], value=v), st))
+                    continue
+            out.append(st)
+        return out
+    f.body = walk(f.body)
+
+
+def _propagate_local_literals(f):
+    """C12: a local NAME bound exactly once, by `n = <int/bytes/str literal>` (or len() of a bytes/str literal), and never deleted, is
+    replaced by that literal (an immutable value that nothing can change between the binding and the uses)"""
+    params = {a.arg for a in f.args.args + f.args.kwonlyargs + f.args.posonlyargs}
+    stores, cand = {}, {}
+    for n in ast.walk(f):
+        if isinstance(n, ast.Name) and isinstance(n.ctx, (ast.Store, ast.Del)):
+            stores[n.id] = stores.get(n.id, 0) + 1
+        elif isinstance(n, (ast.Global, ast.Nonlocal)):
+            for x in n.names:
+                stores[x] = stores.get(x, 0) + 5
+        elif isinstance(n, ast.ExceptHandler) and n.name:
+            stores[n.name] = stores.get(n.name, 0) + 1
+
+    def lit(e):
+        if isinstance(e, ast.Constant) and type(e.value) in (int, bytes, str):
+            return e
+        if isinstance(e, ast.Call) and isinstance(e.func, ast.Name) and e.func.id == "len" and len(e.args) == 1 and not e.keywords \
+                and isinstance(e.args[0], ast.Constant) and type(e.args[0].value) in (bytes, str):
+            return ast.Constant(value=len(e.args[0].value))
+        return None
+    # the binding must dominate every use: it sits in some statement list L at index i and every load lies inside L[i+1:]
+    def blocks(stmts):
+        yield stmts
+        for st in stmts:
+            if isinstance(st, (ast.FunctionDef, ast.ClassDef, ast.AsyncFunctionDef)):
+                continue
+            for field in ("body", "orelse", "finalbody"):
+                sub = getattr(st, field, None)
+                if isinstance(sub, list) and sub and isinstance(sub[0], ast.stmt):
+                    for b in blocks(sub):
+                        yield b
+            if isinstance(st, ast.Try):
+                for h in st.handlers:
+                    for b in blocks(h.body):
+                        yield b
+    nested_names = set()
+    for n in ast.walk(f):
+        if n is not f and isinstance(n, (ast.FunctionDef, ast.Lambda, ast.ClassDef, ast.AsyncFunctionDef)):
+            nested_names |= {x.id for x in ast.walk(n) if isinstance(x, ast.Name)}
+    for L in blocks(f.body):
+        for i, st in enumerate(L):
+            if isinstance(st, ast.Assign) and len(st.targets) == 1 and isinstance(st.targets[0], ast.Name):
+                nm = st.targets[0].id
+                if stores.get(nm) == 1 and nm not in params and nm not in nested_names and lit(st.value) is not None:
+                    later = {id(x) for later_st in L[i + 1:] for x in ast.walk(later_st)}
+                    loads = [x for x in ast.walk(f) if isinstance(x, ast.Name) and x.id == nm and isinstance(x.ctx, ast.Load)]
+                    if loads and all(id(x) in later for x in loads):
+                        cand[nm] = (st, lit(st.value), L)
+    if not cand:
+        return
+
+    class T(ast.NodeTransformer):
+        def visit_Name(self, n):
+            if isinstance(n.ctx, ast.Load) and n.id in cand:
+                new = ast.copy_location(copy.deepcopy(cand[n.id][1]), n)
+                new._prop = True
+                return new
+            return n
+    T().visit(f)
+    for st, v, L in cand.values():
+        L[:] = [x for x in L if x is not st] or [ast.Pass()]
+    fold(f)
+
+
+def _plain_int_augassign(f):
+    """C11: `n += k` -> `n = n + k` (and `-=`) for a local NAME whose every binding in the function is an int literal or itself plus/minus
+    an int literal: such a name always holds an int, for which the two statements are the same"""
+    binds = {}
+    bad = set()
+    params = {a.arg for a in f.args.args + f.args.kwonlyargs + f.args.posonlyargs}
+    for n in ast.walk(f):
+        if isinstance(n, (ast.Global, ast.Nonlocal)):
+            bad |= set(n.names)
+    def intlit(e):
+        return isinstance(e, ast.Constant) and type(e.value) is int
+    def self_step(name, e):
+        return isinstance(e, ast.BinOp) and isinstance(e.op, (ast.Add, ast.Sub)) and isinstance(e.left, ast.Name) and e.left.id == name and intlit(e.right)
+    for n in ast.walk(f):
+        if isinstance(n, ast.Assign):
+            for t in n.targets:
+                for x in ast.walk(t):
+                    if isinstance(x, ast.Name) and isinstance(x.ctx, ast.Store):
+                        ok = isinstance(t, ast.Name) and len(n.targets) == 1 and (intlit(n.value) or self_step(x.id, n.value))
+                        binds.setdefault(x.id, []).append(ok)
+        elif isinstance(n, ast.AugAssign) and isinstance(n.target, ast.Name):
+            binds.setdefault(n.target.id, []).append(isinstance(n.op, (ast.Add, ast.Sub)) and intlit(n.value))
+        elif isinstance(n, (ast.For, ast.comprehension)):
+            for x in ast.walk(n.target):
+                if isinstance(x, ast.Name):
+                    bad.add(x.id)
+        elif isinstance(n, ast.ExceptHandler) and n.name:
+            bad.add(n.name)
+        elif isinstance(n, (ast.With,)):
+            for it in n.items:
+                if it.optional_vars is not None:
+                    for x in ast.walk(it.optional_vars):
+                        if isinstance(x, ast.Name):
+                            bad.add(x.id)
+        elif isinstance(n, (ast.FunctionDef, ast.Lambda, ast.ClassDef)) and n is not f:
+            for x in ast.walk(n):
+                if isinstance(x, ast.Name):
+                    bad.add(x.id)          # names touched by nested scopes are left alone
+        elif isinstance(n, ast.NamedExpr):
+            bad.add(n.target.id)
+    ints = {k for k, v in binds.items() if all(v) and k not in bad and k not in params}
+
+    class T(ast.NodeTransformer):
+        def visit_AugAssign(self, n):
+            if isinstance(n.target, ast.Name) and n.target.id in ints and isinstance(n.op, (ast.Add, ast.Sub)):
+                return ast.copy_location(ast.Assign(targets=[ast.Name(id=n.target.id, ctx=ast.Store())],
+                                                    value=ast.BinOp(left=ast.Name(id=n.target.id, ctx=ast.Load()), op=n.op, right=n.value)), n)
+            return n
+    T().visit(f)
+
+
 def canon_function(fn):
-    """canonical text of a function (see C1..C8), or None when the function uses constructs the renaming cannot handle"""
+    """canonical text of a function (see C1..C10), or None when the function uses constructs the renaming cannot handle"""
     f = copy.deepcopy(fn)
     for n in ast.walk(f):
         if isinstance(n, ast.Name) and n.id in ("locals", "vars", "eval", "exec", "globals"):
             return None
+    _unroll_enumerate(f)
+    _plain_int_augassign(f)
+    _propagate_local_literals(f)
+    _fold_int_arith(f)
+    _split_tuple_assign(f)
     f.body = canon_function_body(f.body)
     f.body = _forward_temps(f.body, list(ast.walk(ast.Module(body=f.body, type_ignores=[]))) + list(ast.walk(f.args)))
     f.body = canon_function_body(f.body)
